@@ -16,6 +16,7 @@ ap.add_argument("--tests", action="store_true")
 ap.add_argument("--checks", default="")
 ap.add_argument("--scratch", action="store_true", help="apply the patch to a copy of /repo under /dev/shm (VERIF_REPO) instead of /repo itself")
 ap.add_argument("--out", default="")
+ap.add_argument("--keep", action="store_true", help="store the first counterexample of the seed's own check as seeded/<id>/counterexample.json")
 a = ap.parse_args()
 man = json.load(open(os.path.join(VERIF, "MANIFEST.json")))
 claimed = [c["property_id"] for c in man["checks"]]
@@ -52,6 +53,11 @@ for sid in seeds:
                 env["VERIF_REPO"] = scratch
             t = subprocess.run([os.path.join(VERIF, "check"), c, "--tier", a.tier], env=env, capture_output=True, text=True)
             clauses = sorted({ln.split()[0][7:] for ln in t.stdout.splitlines() if ln.startswith("  clause=")})
+            if t.returncode == 1 and c == meta["property"] and a.keep:
+                # keep the first (shortest-path) counterexample as a replayable artefact next to the seed
+                reps = [ln.split("replay=")[1].strip() for ln in t.stdout.splitlines() if ln.startswith("VIOLATION") and "replay=" in ln]
+                if reps and os.path.exists(reps[0]):
+                    shutil.copy(reps[0], os.path.join(d, "counterexample.json"))
             res[c] = {"exit": t.returncode, "wall": round(time.time() - t0, 1), "clauses": clauses[:8]}
             if t.returncode == 2:
                 res[c]["err"] = (t.stderr or t.stdout)[-300:]
